@@ -1,6 +1,7 @@
 CONFIG = dict(
         level='proof',
-        streams=[dict(harness='c07', driver='c07', shrink_field='copies')],
+        streams=[dict(harness='c07', driver='c07', shrink_field='copies'),
+                 dict(harness='c07p', driver='c07', shrink_field='commits')],
         rule='file level: 2..5 real burndown.File copies (clones of one base file on real allocators: deep clone to a new allocator, '
              'Fork-style allocator clone + shallow clone, deep clone on the same allocator, the base itself as the target) edited by random '
              'Update sequences (lengths 0..40, packed authors, ties between equal ticks of different authors, merge-mode edits with the mark '
@@ -10,7 +11,22 @@ CONFIG = dict(
              'files (people on/off, file tracking on/off), Fork(2..4), per-branch regular commits (Update/new/drop) and the merge commit replayed '
              'per branch the way Consume does in merge mode (mergedFiles flags incl. contradicting ones, files absent in some branches, deleted '
              'files), Merge, read-back of every branch, an isolation probe (one more Update in one branch). Non-trivial = at least two copies '
-             'and one line (file level) / a touched path held by at least two branches (analysis level); distinct = distinct input fields.',
+             'and one line (file level) / a touched path held by at least two branches (analysis level); distinct = distinct input fields. '
+             'Scale family (stream c07, kinds scale-*, ana-scale, ana-big): files of 255/256/257, 1000, 4097, 2^15-1, 2^15, 2^15+1, 2^15+7, 40009, '
+             '2^16-1, 2^16, 2^16+1 and 100003 lines (thorough: also 1023..1025, 8191, 8193, 16383..16385, 2^15+2..2^15+6, 2^15+15, 50001, 2^17-1, 2^17+1, '
+             '262147, 1000007 lines and three cases per shape) in 2..4 copies that differ only at chosen places: the first 1..7 lines, the last 1..7 lines '
+             '(single lines, one run, appended lines = marks in the receiver and real values elsewhere, an older real value in a later copy, tails '
+             'marked in every copy), both sides of every power of two, the boundaries and the remainder of an even split into 2..64 parts (also with '
+             'the mark in every copy there), stripes of period 2^k and 2^k+-1, every line different (<= 1000 lines; thorough 2^15+1); judged by the '
+             'extracted per-line specification applied line by line (lines, length, no mark, report count and shape, well-formed node list), the model '
+             'replay is kept for files up to 33000 lines with few nodes; BurndownAnalysis.Merge with 64/257 (thorough 1000) files, 8/9/17/33 (thorough '
+             '64/65/129) branches, and a file of 32771 lines whose last lines are appended in one branch and replayed as marks in the others. '
+             'Pipeline level (stream c07p): the real hercules pipeline (TreeDiff, RenameAnalysis, BlobCache, FileDiff, TicksSinceStart, IdentityDetector, '
+             'BurndownAnalysis; people tracking on/off, file tracking on/off, hibernation distance 0/1/2/3/10) runs on generated histories with merges '
+             '(fans of 2..4 branches, random DAGs with octopus merges, rename-heavy fans; renames with edits on one branch, deletions, files created on one '
+             'branch only, a freed name reused by a new file, the same line inserted independently on two branches, merge commits that edit or rename, '
+             'committer dates that go backwards, a file of 32771 / 40009 lines edited at its very end); BurndownAnalysis sits in a wrapper item that '
+             'forwards every call and reads all participating branches before and after each real Merge; non-trivial = the history has a merge commit.',
         exhaustive_note='all per-line value tuples over {1, 2, author1|1, mark, author1|mark} for 2, 3, 4 copies of one line and 2 copies of two lines '
                         '(quick); additionally 3 copies of 2 lines, 5 copies of 1 line, 2 copies of 3 lines (thorough)',
         assumptions=['the in-order node list of the red-black tree is the state of a tracked file (tree = node list is C05/C03); the correspondence '
@@ -21,7 +37,12 @@ CONFIG = dict(
                      'share no storage is checked by the harness only (isolation probe), not proved',
                      'theorems about trees assume uint32 node values, a uint32 merge tick and fewer than 2^32 lines (what uint32(i), uint32(v) do outside '
                      'this range is modelled and replayed, not specified)'],
-        trusted_base=['hand-written Gallina model coq/theories/FileMerge/Model.v of File.Merge/flatten/updateTime (internal/burndown/file.go) and of '
+        trusted_base=['harness c07p: history generator, the wrapper pipeline item around BurndownAnalysis (forwards Consume/Fork/Merge/Hibernate/Boot unchanged, '
+                      'remembers the last two commits each branch consumed) and, in the driver, the definition of a path touched by a merge commit (its content in '
+                      'the merge commit differs from its content in the commit a participating branch consumed before it), computed from the case\'s trees only',
+                      'driver, large files: run-length decoding of the observed lines and the application of the extracted spec_lines / spec_report_count / '
+                      'no_mark_b to one-line slices (the rule is pointwise; answers remembered per distinct column)',
+                      'hand-written Gallina model coq/theories/FileMerge/Model.v of File.Merge/flatten/updateTime (internal/burndown/file.go) and of '
                       'BurndownAnalysis.Merge/Fork/packPersonWithTick (leaves/burndown.go), tied to the code by the replay of every harness case',
                       '/repo/leaves/verif_c07.go (build tag verif): scenario builder and read-back for BurndownAnalysis (sets tick/mergedFiles/mergedAuthor '
                       'with the statements Consume executes in merge mode; calls the real newFile, Fork, Merge)'],
@@ -32,7 +53,10 @@ CONFIG = dict(
                    'branches hold identical lines for every path in some mergedFiles, equal to the line-rule merge of the non-nil copies in branch order.',
         level_note='The theorems are about the Gallina model; the Go code is tied to it by replaying every generated case (node list, flattened lines, '
                    'callback log, panic class, every path of every branch) with zero mismatches required, and the extracted specification functions '
-                   '(spec_lines, spec_report_count, wf_nodes_b, no_mark_b) judge the implementation outputs directly. Modelled rather than verified: '
+                   '(spec_lines, spec_report_count, wf_nodes_b, no_mark_b) judge the implementation outputs directly, also for files of 10^5 (thorough 10^6) '
+                   'lines and for every BurndownAnalysis.Merge the real pipeline performs on generated histories (there: all participating branches hold the '
+                   'same lines, given by the per-line rule, for every path the merge commit touches - touched is decided from the trees, not from the '
+                   'mergedFiles flags - and no mark is left anywhere). Modelled rather than verified: '
                    'the red-black tree (node list), allocators and clone storage (isolation is probed by the harness), map iteration order (choice '
                    'argument). When the merge tick itself carries the mark updateTime stays silent and the stamped lines keep a mark; this is outside '
                    'the stated domain (C07_length_and_no_mark and the report clause carry the hypothesis mark day = false) and is replayed only.',
